@@ -38,7 +38,8 @@ QUICK_PAIRS = [("foo.a", "foo.sub"), ("fo", "bar.baz"), ("fo", "foo"), ("foo", "
 ALPHABET = (
     "operations: install(names, checker) with checkers {spy A, spy B, None} through the routes api(str) / api(old tuple form) / with-block and, while no hook "
     "is active, the pytest option (plain and with blanks around the commas); import of each of the 12 forest modules; uninstall and leave-with-block(+second "
-    "uninstall) of every live handle; at most 2 hooks active at once"
+    "uninstall) of every live handle; at most 2 hooks active at once; after every operation every loaded module is called (and after every operation but import "
+    "its factories of call-time definitions too)"
 )
 
 
@@ -52,7 +53,10 @@ def families(tier):
     checker of a history is A (A and B are the same code); no_install_from =
     first position at which install is no longer offered (an install that is the
     last operation of a history can only be observed by the keep-their-checker
-    probes, which the earlier positions cover)."""
+    probes, which the earlier positions cover); build_new = whether build() (local
+    class / method / def in the method) is probed on newly loaded modules too (make(),
+    the def in a function body, always is; after every operation other than import
+    both are probed on every loaded module)."""
     if tier == "quick":
         return [
             dict(
@@ -64,9 +68,11 @@ def families(tier):
                 pytest_upto=2,
                 sym=True,
                 no_install_from=4,
+                build_new=False,
                 text="histories of length <= 4; name sets: the 5 single names and the pairs {foo.a,foo.sub} {fo,bar.baz} for the first "
                 "active hook, the 5 single names for the second; spelling variants and the pytest route at positions <= 2; first spy of a history is A; "
-                "no install at position 4",
+                "no install at position 4; call-time definitions: make() on every newly loaded module, make() + build() on every loaded module after every "
+                "install / uninstall / leave",
             )
         ]
     return [
@@ -79,8 +85,10 @@ def families(tier):
             pytest_upto=4,
             sym=False,
             no_install_from=4,
+            build_new=True,
             text="histories of length <= 4; name sets: every non-empty subset of size <= 2 of {foo, foo.a, foo.sub, fo, bar.baz} for both hooks; "
-            "spelling variants at positions <= 2, pytest route at every position while no hook is active; no install at position 4",
+            "spelling variants at positions <= 2, pytest route at every position while no hook is active; no install at position 4; call-time definitions: "
+            "make() + build() on every newly loaded module and on every loaded module after every install / uninstall / leave",
         ),
         dict(
             name="T5",
@@ -91,8 +99,9 @@ def families(tier):
             pytest_upto=2,
             sym=True,
             no_install_from=5,
+            build_new=True,
             text="histories of length <= 5; name sets: the 5 single names for both hooks; spelling variants at position 1, pytest route at positions <= 2; "
-            "first spy of a history is A; no install at position 5",
+            "first spy of a history is A; no install at position 5; call-time definitions as in T4",
         ),
     ]
 
@@ -129,6 +138,11 @@ def enabled_ops(records, P, pos):
             ops.append(("uninstall", i))
             ops.append(("leave", i))
     return ops
+
+
+def w_alive(w):
+    """Installs alive AFTER the operation just applied."""
+    return [(r["names"], r["ck"]) for r in w.records if r["alive"]]
 
 
 def _records(w):
@@ -178,8 +192,8 @@ def judge(records, pre, op, out, tags, extra):
                 continue
             e = extra.get(x)
             want_d = t if t in ("A", "B") else "noraise"
-            if e is not None and (e["make"] != t or e["D"] != want_d):
-                probs.append(("partial-instrumentation", x, f"f runs as {t!r} but dataclass probe {e['D']!r}, nested def {e['make']!r}"))
+            if e is not None and (e["make"] != t or e["D"] != want_d or e.get("build", t) != t):
+                probs.append(("partial-instrumentation", x, f"f runs as {t!r} but dataclass probe {e['D']!r}, nested def {e['make']!r}, nested class/method/def {e.get('build', 'not probed')!r}"))
             cids = {c for _, c in out["decos"].get(x, ())}
             if (t in ("A", "B") and cids != {t}) or (t not in ("A", "B") and cids):
                 probs.append(("decoration-log", x, f"f runs as {t!r} but at import the spies were handed functions of this module by {sorted(cids)}"))
@@ -191,9 +205,22 @@ def judge(records, pre, op, out, tags, extra):
         if t != t0:
             probs.append(("checker-changed", m, f"was {t0!r}, is {t!r} after {op}"))
         e = extra.get(m)
-        if e is not None and m not in out["new"] and e.get("make") != t0:
-            probs.append(("nested-def-checker-changed", m, f"module runs as {t0!r}, a function it defines now runs as {e.get('make')!r} after {op}"))
+        if e is not None and m not in out["new"] and t == t0:
+            # definitions made at CALL time (def / class statements in function bodies, depth 2..4) behave
+            # like the module they belong to at every later point of the history: plain if it was loaded
+            # plain, otherwise checked by the checker of the install call that loaded it
+            for what, label in NESTED:
+                g = e.get(what)
+                if g is not None and g != t0:
+                    raises = g.startswith(("factory-exc", "exc-welltyped"))
+                    probs.append(("nested-" + what + ("-raises" if raises else "-checker-changed"), m, f"module runs as {t0!r}, {label} now gives {g!r} after {op}"))
     return probs
+
+
+NESTED = [
+    ("make", "a function defined by a def statement in a function body (executed by a call made now)"),
+    ("build", "a local class / its method / a def inside that method (statements executed by calls made now)"),
+]
 
 
 def vkey(kind, module, records):
@@ -215,9 +242,9 @@ def _world(tmp):
     return w
 
 
-def _step(w, op, records, pre):
+def _step(w, op, records, pre, build_new=True):
     out = w.apply(op)
-    key, tags, extra = w.observe(new=out["new"], make_all=(op[0] != "import"), strict=(op[0] in ("uninstall", "leave")))
+    key, tags, extra = w.observe(new=out["new"], make_all=(op[0] != "import"), strict=(op[0] in ("uninstall", "leave")), build_new=build_new)
     return out, key, tags, extra, judge(records, pre, op, out, tags, extra)
 
 
@@ -229,7 +256,8 @@ def _expand(job):
         return _cells(job)
     P = job["P"]
     w = _world(job["tmp"])
-    stats = dict(transitions=0, imports=0, loads=0, instrumented_loads=0, plain_loads_under_active_hook=0, lookalike_left_plain=0, dontcare=0, after_uninstall_loads=0, refused=0, replays=0)
+    stats = dict(transitions=0, imports=0, loads=0, instrumented_loads=0, plain_loads_under_active_hook=0, lookalike_left_plain=0, dontcare=0, after_uninstall_loads=0, refused=0, replays=0,
+                 nested_probes=0, nested_probes_after_the_loading_hook_is_gone=0, nested_probes_while_only_other_hooks_are_active=0)
     first, viols, samples = {}, [], []
     order = []
     for idx, key0, hist in job["states"]:
@@ -244,9 +272,18 @@ def _expand(job):
         pos = len(hist) + 1
         snap = w.snapshot()
         for op in enabled_ops(records, P, pos):
-            out, k2, t2, extra, probs = _step(w, op, records, tags)
+            out, k2, t2, extra, probs = _step(w, op, records, tags, P["build_new"])
             stats["transitions"] += 1
             alive = [r for r in records if r[3]]
+            for x, e in extra.items():
+                n = ("make" in e) + ("build" in e)
+                stats["nested_probes"] += n
+                if x not in out["new"]:
+                    tx = tags.get(x)
+                    if tx != "p" and not any(covers(r[0], x) and _tag(r[1]) == tx for r in w_alive(w)):
+                        stats["nested_probes_after_the_loading_hook_is_gone"] += n
+                        if w_alive(w):
+                            stats["nested_probes_while_only_other_hooks_are_active"] += n
             if op[0] == "import":
                 stats["imports"] += 1
                 for x in out["new"]:
@@ -537,6 +574,12 @@ def _run(ctx, tmp, pool, sw):
         loads_after_uninstall_of_covering_hook=stats.get("after_uninstall_loads", 0),
         dontcare_loads_two_checkers_cover=stats.get("dontcare", 0),
         pytest_refusals=stats.get("refused", 0),
+        call_time_definition_probes=stats.get("nested_probes", 0),
+        call_time_definition_probes_after_the_loading_hook_is_gone=stats.get("nested_probes_after_the_loading_hook_is_gone", 0),
+        call_time_definition_probes_while_only_other_hooks_are_active=stats.get("nested_probes_while_only_other_hooks_are_active", 0),
+        forest_module="every forest module defines f (module level), dataclass D, make() -> def in a function body (depth 2), build() -> class in a function body "
+        "(depth 2) with a method (3) that defines a def (4); the nested statements - and the decorator expressions the hook put on them - are executed when the "
+        "factory is CALLED, which the search does at every later point of the history (well-typed call, then ill-typed; after uninstall / leave both for every module)",
         alphabet=ALPHABET,
         bounds="; ".join(f"{f['name']}: {f['text']}" for f in fams) + "; IPython: histories of length <= " + ("4" if ctx.quick else "5") + " over {magic A, magic B, cell g0, cell g1}",
         exhaustive=stopped is None,
@@ -547,9 +590,11 @@ def _run(ctx, tmp, pool, sw):
         coverage=cov,
         violations=out_v,
         assumptions=[
-            "a later import depends on nothing but sys.meta_path, sys.modules and Typechecker.lookup (argument for deduplicating states); uninstalled hooks are dropped from the state",
-            "undoing one operation = restoring sys.meta_path, the forest's sys.modules entries (and parent attributes) and Typechecker.lookup; "
-            "every state found that way is rebuilt from a reset world by its history at the next level and must reproduce the same key",
+            "a later import depends on nothing but sys.meta_path, sys.modules and the hook machinery's own state (argument for deduplicating states); uninstalled hooks are dropped from the state",
+            "undoing one operation = restoring sys.meta_path, the forest's sys.modules entries (and parent attributes) and the WHOLE captured state of the hook machinery "
+            "(every global of jaxtyping._import_hook / _pytest_plugin / _ipython_extension, every attribute of their classes, the attribute dictionaries of the live handles, "
+            "finders and typechecker objects, the content of every mutable container reachable from those - Typechecker.lookup is one of them); a reset world has the state "
+            "captured before the first install of the process; every state found by undo is rebuilt from a reset world by its history at the next level and must reproduce the same key",
             "with-block modelled as install + __enter__ ... __exit__ (+ a second uninstall); pytest route = pytest's real option parser + pytest_configure with a config object that only has getoption",
             "spy A and spy B are the same code with a different id (symmetry used where a family says 'first spy of a history is A')",
         ],
